@@ -14,8 +14,11 @@ RULE = ("cases: 'act <flags> <mutations>' on the genuine regtest snapshot at hei
         "containing the base. The extracted model decodes the mutated file itself (SHA256d and secp256k1 decompression in Coq) and predicts "
         "the result class with its counters, and on success the base block and the UTXO hash of the new chainstate; after every rejection "
         "the implementation's chainstates, active tip, snapshot directory and the UTXO hash of the existing chainstate must be unchanged. "
+        "'bg <scenario> <tamper>': after a genuine activation the real MaybeValidateSnapshot is called on the fully validated chainstate "
+        "(at the base block; already completed; one block short) whose coin set is left intact or tampered (coin added, removed, value, "
+        "height, coinbase bit); the model hashes the validated set read back from the coins DB and predicts SUCCESS / HASH_MISMATCH / SKIPPED. "
         "non-trivial = a mutation or a flag is present; distinct = distinct case lines")
-ASSUMPTIONS = ["the UTXO hash function is a Section variable; `accepted => loaded set = committed set` is proved under its injectivity on the two "
+ASSUMPTIONS = ["the UTXO hash function is a Section variable; `accepted => loaded set = committed set` is proved for byte streams (bytes < 256) under its injectivity on the two "
                "serialized sets (SHA256d collision resistance)",
                "the block index facts consulted by the decision (base block known, height, failed flag, ancestor of the best header, work "
                "comparison with the active tip) are inputs of the model; the tie reads them from the real node",
@@ -48,7 +51,7 @@ def one_mutation(rng):
     if r < 0.83: return "Mm%d:%d" % (rng.randrange(5), 1 << rng.randrange(8))
     if r < 0.86: return "Mv%d" % rng.choice([0, 1, 3, 258, 65535])
     if r < 0.89: return "Mn%d:%d" % (rng.randrange(4), 1 << rng.randrange(8))
-    if r < 0.95: return rng.choice(["B0", "B1", "Bh109", "Bh100", "Bh0", "Bh110", "Bx77"])
+    if r < 0.95: return rng.choice(["B0", "B1", "Bh109", "Bh100", "Bh0", "Bh110", "Bx77", "Bt200", "Bt299", "Bt110"])
     return "none"
 
 
@@ -64,7 +67,7 @@ def byte_mutation(rng):
 
 def gen(rng, tier):
     cases = ["act - none", "act m none", "act t none", "act T none", "act f none", "act b none", "act s none",
-             "act - w0:109", "act - u5", "act - U5", "act - d5", "act - D5", "act - c1", "act - c-1", "act - e1", "act - z00"]
+             "act - Bt200", "act - w0:109", "act - u5", "act - U5", "act - d5", "act - D5", "act - c1", "act - c-1", "act - e1", "act - z00"]
     n = 170 if tier == "quick" else 5000
     for _ in range(n):
         r = rng.random()
@@ -82,7 +85,13 @@ def gen(rng, tier):
         if r < 0.8: flags = "-"
         else: flags = rng.choice(["m", "t", "T", "f", "b", "s", "mf", "fb", "tb", "mt"])
         cases.append("act %s %s" % (flags, "+".join(muts)))
-    return cases
+    # background validation: the real MaybeValidateSnapshot on the (possibly tampered) fully validated chainstate at the base block
+    bg = ["bg ready none", "bg again none", "bg behind none", "bg ready add"]
+    for _ in range(14 if tier == "quick" else 300):
+        i = rng.randrange(NCOINS)
+        t = rng.choice(["none", "add", "del%d" % i, "val%d:%d" % (i, rng.choice([1, -1, 5000])), "hgt%d:%d" % (i, rng.choice([1, -1])), "cb%d" % i])
+        bg.append("bg %s %s" % (rng.choice(["ready", "ready", "ready", "again", "behind"]), t))
+    return cases + bg
 
 
 class HandoverTie(Tie):
@@ -95,7 +104,9 @@ class HandoverTie(Tie):
         res = []
         for c, o in zip(cases, outs):
             self._full[c] = o
-            if " res=" in o:
+            if o.startswith("bgres="):
+                o = o.split()[0]
+            elif " res=" in o:
                 f = dict(w.split("=", 1) for w in o.split() if "=" in w)
                 if f["res"] == "ok":
                     o = "res=ok tip=%s utxo=%s ibdstate=%s" % (f.get("tip"), f.get("utxo"), f.get("ibdstate"))
@@ -117,7 +128,7 @@ class HandoverTie(Tie):
 
 TIES = [HandoverTie("activate_snapshot", "tie/drivers/snapshot_drv.cpp", "Extract_Snapshot.v", "snapshot_driver.ml", gen,
                     predicate="functional", nontrivial=lambda c: c != "act - none",
-                    classify=lambda c: "act:" + c.split()[1][0] + ":" + c.split()[2][0])]
+                    classify=lambda c: c.split()[0] + ":" + c.split()[1][0] + ":" + c.split()[2][0])]
 
 LEVEL_TEXT = ("Coq theorems over an executable transcription of the snapshot activation decision (metadata parsing, the ActivateSnapshot "
               "precondition chain, the coin loading loop of PopulateAndValidateSnapshot with its count, height, money-range, truncation and "
@@ -130,5 +141,6 @@ LEVEL_TEXT = ("Coq theorems over an executable transcription of the snapshot act
               "Model tied to the real ActivateSnapshot on mutations of the genuine regtest snapshot.")
 LEVEL_NOTE = ("Trusted: Coq kernel, extraction + driver glue. The block-index facts are inputs of the model (read from the node by the driver). "
               "A snapshot that repeats a coin record (count adjusted) loads the same set and is accepted: the theorems speak about coin records "
-              "and the resulting set, as the code does. MaybeValidateSnapshot is modelled and proved about but not driven (no background-sync scenario in the tie).")
+              "and the resulting set, as the code does. MaybeValidateSnapshot is driven right after a genuine activation (the validated chainstate stands at the base block, as in the "
+              "unit tests), with the validated coin set tampered in place; a real background sync is not run.")
 TECHNIQUE = "Coq proof (case analysis over the decision, induction over the coin stream, injectivity of the canonical set serialization) + differential correspondence"
